@@ -191,45 +191,55 @@ func predict(m *model, op Op) prediction {
 	return rej
 }
 
-// Excluded input classes: genuine defects found by this check (witnesses under
-// replays/C14, proposed entries in known_findings_C14.proposed.json). The generator does not
-// draw them (counted with Rec.Exclude) so that the search goes on behind them. A class
-// is removed from this table when its fix is in /repo (the patch files are under patches/).
+// Input classes of the genuine defects found by this check (witnesses under replays/C14,
+// entries in known_findings_C14.final.json). true = the generator does not draw the class
+// (counted with Rec.Exclude) so that the search goes on behind the defect; false = the
+// defect is fixed in /repo, the class is generated again (and can be switched off with
+// VERIF_C14_EXCLUDE for a run against an older tree).
 var excludedCatalogue = map[string]bool{
-	// POST /tasks with template-id that is rejected after handleCreateTask has already
-	// written the template->task association (patches/create-from-template-association.diff)
-	"create-from-template-rejected": true,
+	// POST /tasks with template-id that is rejected after handleCreateTask had already
+	// written the template->task association; fixed by 28815ba
+	"create-from-template-rejected": false,
 	// PATCH /tasks/ID with another template-id and no id change: accepted, the association
-	// is never moved (patches/update-task-association.diff)
-	"template-changed-without-rename": true,
+	// was never moved; fixed by e62cd16
+	"template-changed-without-rename": false,
 	// PATCH /tasks/ID renaming / re-assigning a templated task that is rejected after the
-	// association was moved (same patch)
-	"association-moved-by-rejected-update": true,
+	// association was moved; fixed by e62cd16
+	"association-moved-by-rejected-update": false,
 	// PATCH /templates/ID rejected because an enabled associated task does not start: the
-	// tasks are rolled back, the template is not
-	// (patches/template-update-rollback-restores-template.diff)
-	"template-update-rolled-back": true,
+	// tasks were rolled back, the template was not; fixed by 1a608f2
+	"template-update-rolled-back": false,
 	// an enabled batch task with a grant but no InfluxDB cluster starts and ends by itself;
 	// whether kapacitor notices is a race (race_test.go): not decidable deterministically
 	"batch-task-that-dies-by-itself": true,
 }
 
-// isExcluded: a class of the table is excluded unless VERIF_C14_INCLUDE names it (comma
-// separated, or "all"): how a proposed fix is validated before the table is edited.
-func isExcluded(table map[string]bool, class string) bool {
-	if !table[class] {
-		return false
-	}
-	inc := os.Getenv("VERIF_C14_INCLUDE")
-	if inc == "all" {
-		return false
-	}
-	for _, c := range strings.Split(inc, ",") {
-		if c == class {
-			return false
+func envList(name string) (all bool, set map[string]bool) {
+	set = map[string]bool{}
+	for _, c := range strings.Split(os.Getenv(name), ",") {
+		if c == "all" {
+			all = true
+		} else if c != "" {
+			set[c] = true
 		}
 	}
-	return true
+	return
+}
+
+// isExcluded: the default of the table, overridden per run by VERIF_C14_EXCLUDE and
+// VERIF_C14_INCLUDE (comma separated class names, or "all"); INCLUDE wins.
+func isExcluded(table map[string]bool, class string) bool {
+	def, known := table[class]
+	if !known {
+		return false
+	}
+	if all, set := envList("VERIF_C14_INCLUDE"); all || set[class] {
+		return false
+	}
+	if all, set := envList("VERIF_C14_EXCLUDE"); all || set[class] {
+		return true
+	}
+	return def
 }
 
 func pick[T any](t *rapid.T, label string, xs []T) T { return rapid.SampledFrom(xs).Draw(t, label) }
